@@ -33,6 +33,7 @@ func init() { logging.Logger = quiet{} }
 // Options selects the broker configuration.
 type Options struct {
 	LicenseVersion int    // 1, 2 or 3 (default 3); 4 = version 1 with a zero contract signature
+	Contract       *cfg.ProviderConfig // contract provider (default: the single-contract provider of the license)
 	Matcher        string // "" (emitter) or "mqtt"
 	Storage        string // "noop" (default), "inmemory", "ssd"
 	StorageDir     string
@@ -98,6 +99,7 @@ func New(o Options) (*Env, error) {
 		Matcher:    o.Matcher,
 		Monitor:    &cfg.ProviderConfig{Provider: "noop"},
 		Cluster:    o.Cluster,
+		Contract:   o.Contract,
 	}
 	if o.MessageSize > 0 {
 		c.Limit.MessageSize = o.MessageSize
